@@ -8,7 +8,9 @@ import (
 
 	"github.com/titpetric/vuego"
 
+	"golang.org/x/net/html"
 	"verif/engine/core"
+	"verif/engine/htmlcmp"
 )
 
 // C11: every render call returns — no panic, no unbounded recursion, no hang.
@@ -42,6 +44,8 @@ func (c *c11Case) CrashWhere() string {
 	switch c.Part {
 	case "funcs":
 		return "funcs/" + c.Pos
+	case "api":
+		return "api"
 	case "depth":
 		return "depth/" + c.Pos
 	case "ctor":
@@ -121,7 +125,9 @@ var c11Funcs = func() map[string]any {
 		"ctxstr":   func(ctx *vuego.VueContext, s string) string { return s },
 		"ctxvar":   func(ctx *vuego.VueContext, parts ...any) string { return fmt.Sprint(len(parts)) },
 		"ctxfix":   func(ctx *vuego.VueContext, width int, parts ...any) string { return fmt.Sprint(width, len(parts)) },
-		"ctxfixs":  func(ctx *vuego.VueContext, name string, parts ...string) string { return name + strings.Join(parts, "") },
+		"ctxfixs": func(ctx *vuego.VueContext, name string, parts ...string) string {
+			return name + strings.Join(parts, "")
+		},
 		"witherr":  func(s string) (string, error) { return s, nil },
 		"failing":  func(s string) (string, error) { return "", fmt.Errorf("no") },
 		"commaok":  func(s string) (string, bool) { return s, true },
@@ -165,12 +171,40 @@ var c11CallForms = []struct{ Name, Tpl string }{
 	{"chain", `<p>{{ x | F | F }}</p>`},
 }
 
-var c11Tokens = []string{"<", ">", "</", "{{", "}}", "\"", "=", "<template", " include=", " v-for=\"", " v-if=\"", "<slot>", "---\n", "\x00", "a", "<!--", " v-html=\"", "|", "(", " in "}
+var c11Tokens = []string{"<", ">", "</", "{{", "}}", "\"", "=", "<template", " include=", " v-for=\"", " v-if=\"", "<slot>", "---\n", "\x00", "a", "<!--", " v-html=\"", "|", "(", " in ", "'", "\\", "'a\\"}
 
 func (c *c11Case) Run(ctx *core.Ctx) {
 	ctx.NonTrivial()
 	var buf bytes.Buffer
 	switch c.Part {
+	case "api":
+		// the exported accessors of the variable stack on every value, and RenderNodes on node lists with holes
+		v := wrongByName(c.Val)
+		st := vuego.NewStack(map[string]any{"x": v, "o": map[string]any{"x": v}, "l": []any{v}})
+		n := 0
+		for _, path := range []string{"x", "x.a", "x[0]", "x.Name", "o.x", "o.x.a", "l[0]", "l[0].a", "x.x.x", "missing"} {
+			ctx.Eval(7)
+			_, _ = st.Resolve(path)
+			_, _ = st.Lookup(path)
+			_, _ = st.GetString(path)
+			_, _ = st.GetInt(path)
+			_, _ = st.GetSlice(path)
+			_, _ = st.GetMap(path)
+			_ = st.ForEach(path, func(int, any) error { n++; return nil })
+		}
+		_ = st.EnvMap()
+		_ = st.Copy().EnvMap()
+		st2 := vuego.NewStackWithData(map[string]any{"a": 1}, v)
+		_, _ = st2.Resolve("Name")
+		_, _ = st2.GetString("a")
+		_ = st2.EnvMap()
+		vue := vuego.NewVue(Files{}.FS())
+		nodes := htmlcmp.ParseFragment(`<p :title="x">{{ x }}</p><i v-for="q in x">{{ q }}</i>`)
+		ctx.Eval(3)
+		err1 := vue.RenderNodes(&buf, append([]*html.Node{nil}, nodes...), map[string]any{"x": v})
+		err2 := vue.RenderNodes(&buf, append(append([]*html.Node{}, nodes...), nil, nil), map[string]any{"x": v})
+		err3 := vue.RenderNodes(&buf, nil, v)
+		ctx.Outcome(fmt.Sprint(n, err1 != nil, err2 != nil, err3 != nil))
 	case "funcs":
 		var tpl string
 		for _, f := range c11CallForms {
@@ -335,9 +369,11 @@ func (c *c11Case) Run(ctx *core.Ctx) {
 			"nilfs":      func() vuego.LoadOption { return vuego.WithFS(nil) },
 			"components": func() vuego.LoadOption { return vuego.WithComponents() },
 			"less":       func() vuego.LoadOption { return vuego.WithLessProcessor() },
-			"funcs":      func() vuego.LoadOption { return vuego.WithFuncs(vuego.FuncMap{"f": func(s string) string { return s }}) },
-			"nilfuncs":   func() vuego.LoadOption { return vuego.WithFuncs(nil) },
-			"proc":       func() vuego.LoadOption { return vuego.WithProcessor(&c12Proc{failAt: -1}) },
+			"funcs": func() vuego.LoadOption {
+				return vuego.WithFuncs(vuego.FuncMap{"f": func(s string) string { return s }})
+			},
+			"nilfuncs": func() vuego.LoadOption { return vuego.WithFuncs(nil) },
+			"proc":     func() vuego.LoadOption { return vuego.WithProcessor(&c12Proc{failAt: -1}) },
 		}
 		var opts []vuego.LoadOption
 		for _, n := range c.A {
@@ -434,7 +470,7 @@ func init() {
 			fmt.Sprintf("(1b) %d registered functions of every shape (fixed, variadic, context-taking, with error / comma-ok / three / no results, array, slice, map, pointer, struct, func and interface parameters, nil entries, values that are not functions) x %d call forms (call with 0..3 arguments, pipes with and without arguments, v-if, :attr, v-for) x the same values as argument; ", len(c11Funcs), len(c11CallForms)) +
 			"(1d) engines constructed with every ordered selection of <=3 options out of {WithFS, WithFS(nil), WithComponents, WithLessProcessor, WithFuncs, WithFuncs(nil), WithProcessor} through New, NewFS(fs) and NewFS(nil), followed by a string render, a file render and a render of a missing file; " +
 			"(1c) templates of 31 nesting depths from 1 to 600 (around 16, 32, 64, 128, 256, 512) as nested divs, divs with an inline sibling per level, spans, lists and a self-including component, through 4 entry points; " +
-			"(2) all include graphs over 3 files where each file includes <=2 targets in 6 modes (direct, v-if true/false, v-for, as plain slot content, as v-slot content), the includes wrapped in an element, standing bare as the first nodes of the file, or inside a <template> root: must return, with an error iff a cycle is reachable; (3) every token string up to the bound over a 20-token alphabet as template source (string / file / Vue.Render) and as front-matter. " +
+			"(2) all include graphs over 3 files where each file includes <=2 targets in 6 modes (direct, v-if true/false, v-for, as plain slot content, as v-slot content), the includes wrapped in an element, standing bare as the first nodes of the file, or inside a <template> root: must return, with an error iff a cycle is reachable; (3) every token string up to the bound over a 23-token alphabet as template source (string / file / Vue.Render) and as front-matter. " +
 			"oracle: the call returns - no panic (recovered per case), no fatal error or stack overflow (64 MiB stack cap, worker subprocess), no hang (CPU budget per case). non-trivial = all",
 		Bounds:      map[string]string{"quick": "graphs with <=1 edge per file in all modes plus 2 edges in {direct, vfor}; token strings of length <=3", "thorough": "graphs with <=1 edge per file in all 6 modes plus 2 edges in {direct, v-if, v-for, slot content}; token strings of length <=4"},
 		Assumptions: []string{"panics raised by the body of a user-registered function are the user's: the registered functions here never panic themselves", "cyclic maps/slices (not JSON-like) are not generated"},
@@ -446,6 +482,7 @@ func init() {
 				}
 			}
 			for _, w := range wrongValues {
+				emit(&c11Case{Part: "api", Val: w.Name})
 				emit(&c11Case{Part: "types", Pos: "root", Val: w.Name})
 			}
 			for _, fn := range c11FuncNames {
